@@ -79,7 +79,7 @@ func (f *FlatNews) Write(p []byte) (int, error) {
 		return 0, fmt.Errorf("rename temporary file to final file: %v", err)
 	}
 
-	return len(p), os.WriteFile(f.filePath, f.data, 0644)
+	return len(p), nil
 }
 
 func (f *FlatNews) Seek(offset int64, _ int) (int64, error) {
